@@ -28,7 +28,7 @@ EXPLANATION = (
 
 
 def run(rep):
-    engine.run_units(rep, [u for u in k17_spanner.units(tier()) if u.get("unit", "").startswith("K17a")] + k17b_bfs.units(tier()))
+    engine.run_units(rep, [u for u in k17_spanner.units(tier()) if u.get("unit", "").startswith(("K17a", "K17c"))] + k17b_bfs.units(tier()))
     common.native_filtered(rep, "e3_approx", KINDS, driver="e3_approx[spanner]", args=["--only", "spanner"],
                            functions={"BaseApproxSpannerAlgorithm::construct_spanner": "bounded", "is_bfs_reachable": "bounded"},
                            assumptions=["hook H1 accessors return the private members unchanged"],
